@@ -52,6 +52,31 @@ static Level fam_FC(int maxdefs, std::vector<int> shapes, int mainnodes, bool ri
               }
             }); }};
 }
+// F-C in dense layouts: several nodes share a line - (a) the whole source on one line, (b) every definition header on the
+// END line of the definition before it and the first main statement on the last END line, (c) every definition on one line
+static Level fam_FC_dense(int maxdefs, std::vector<int> shapes, int mainnodes, const std::string &tag) {
+  return {"F-C-dense" + tag, [=](const CB &cb) {
+            auto strip = [](const std::string &l) { size_t p = l.find_first_not_of(' '); return p == std::string::npos ? std::string() : l.substr(p); };
+            gen::enum_defs(maxdefs, shapes, [&](const std::vector<gen::DefInst> &defs) {
+              if (defs.empty()) return;
+              std::vector<std::vector<std::string>> dls; for (auto &d : defs) dls.push_back(gen::print_def(d));
+              gen::Alphabet A = gen::alphabet_FC(defs, false, false);
+              for (int n = 1; n <= mainnodes; n++) {
+                gen::Seq cur;
+                gen::enum_seq(A, n, 1, cur, [&](const gen::Seq &s) {
+                  std::vector<std::string> ml; gen::print_lines(s, ml);
+                  std::string a, b, c2;
+                  for (auto &dl : dls) for (auto &l : dl) a += strip(l) + " ";
+                  for (auto &l : ml) a += strip(l) + " ";
+                  for (size_t i = 0; i < dls.size(); i++) { for (size_t k = 0; k < dls[i].size(); k++) b += dls[i][k] + (k + 1 < dls[i].size() ? "\n" : " "); }
+                  b += gen::join_lines(ml);
+                  for (auto &dl : dls) { for (auto &l : dl) c2 += strip(l) + " "; c2 += "\n"; }
+                  c2 += gen::join_lines(ml);
+                  cb(single(a + "\n")); cb(single(b)); cb(single(c2));
+                });
+              }
+            }); }};
+}
 static std::vector<int> all_shapes() { std::vector<int> v; for (size_t i = 0; i < gen::def_pool().size(); i++) v.push_back((int)i); return v; }
 
 // unusual declarations (C03): repeated parameter names, OUT = parameter, OUT never mentioned, no parameters, no body
@@ -176,6 +201,26 @@ static Level fam_bigvalues(int maxnodes) {
             for (int k : {29, 30, 31, 32, 33}) cb(single("PROGRAM dbl IN a DO\n  x0 := a;\n  LOOP a DO\n    x0 := x0 + 1\n  END\nEND\nx0 := 2;\nx1 := " + std::to_string(k) + ";\nLOOP x1 DO\n  x0 := x0 + 1073741823\nEND\n"));
           }};
 }
+// C20: large values travelling through calls (ARG / RET copies, callee-side additions) and tests against large constants
+static Level fam_bigcalls(int maxnodes) {
+  return {"big-values through calls<=" + std::to_string(maxnodes), [=](const CB &cb) {
+            std::string lib =
+                "PROGRAM idf IN a DO\n  x0 := a\nEND\n"
+                "PROGRAM addbig IN a DO\n  x0 := a + 2147483646\nEND\n"
+                "PROGRAM subbig IN a DO\n  x0 := a - 2147483646\nEND\n"
+                "PROGRAM sum IN a, b DO\n  x0 := a;\n  LOOP b DO\n    x0 := x0 + 1073741823\n  END\nEND\n"
+                "PROGRAM cmp IN a DO\n  x0 := a + 1073741824;\n  IF a = 2147483646 THEN GOTO big;\n  GOTO fin;\n  big: x0 := 2147483646;\n  fin: x0 := x0 + 0\nEND\n";
+            gen::Alphabet A; A.loopvars = {"x1"};
+            std::vector<std::string> consts = {"1", "3", "1073741824", "2147483646"};
+            for (auto t : {"x0", "x1"}) {
+              for (auto &c : consts) { gen::GS g; g.text = std::string(t) + " := " + c; A.atoms.push_back(g); }
+              for (auto c : {"1", "2147483646"}) for (auto op : {" + ", " - "}) { gen::GS g; g.text = std::string(t) + " := x0" + op + c; A.atoms.push_back(g); }
+              for (auto f : {"idf", "addbig", "subbig", "cmp"}) for (auto a : {"x0", "2147483646"}) { gen::GS g; g.text = std::string(t) + " := RUN " + f + " WITH " + a + " END"; A.atoms.push_back(g); }
+              for (auto b : {"x1", "3"}) { gen::GS g; g.text = std::string(t) + " := RUN sum WITH x0, " + b + " END"; A.atoms.push_back(g); }
+            }
+            for (int n = 1; n <= maxnodes; n++) { gen::Seq cur; gen::enum_seq(A, n, 1, cur, [&](const gen::Seq &s) { cb(single(lib + gen::print_fl(s))); }); }
+          }};
+}
 static Level fam_literals() {
   return {"literal-forms (incl. digit-length ladder 1..40)", [=](const CB &cb) {
             std::vector<std::string> lits; for (int n = 1; n <= 40; n++) { lits.push_back(std::string(n, '9')); lits.push_back("1" + std::string(n - 1, '0')); }
@@ -204,11 +249,11 @@ int main(int argc, char **argv) {
   std::vector<int> shapesQ = {0, 1, 2, 4, 6, 7, 11, 15}, shapesAll = all_shapes(), shapesR = {1, 4, 8, 11, 12};
   if (P == "C01") {
     o = orc::oracle_C01;
-    L = {fam_FA(3, 2, true), fam_semladder(T ? 40 : 24), fam_FB(3, 2), fam_FC(2, shapesQ, 1, false, false, 0, "(<=2 defs of 8 shapes, main 1 node)"), fam_FC(1, shapesAll, 2, true, false, 2, "(1 def of 16 shapes, main<=2 nodes, rich args, both file layouts)"), fam_FC(2, shapesQ, 1, true, false, 0, "(<=2 defs of 8 shapes, main 1 node, rich args incl. nested calls)"), fam_FD(7, 1, 6), fam_FA(3, 2, true, true), fam_FC(3, shapesR, 1, false, false, 0, "(<=3 defs of 5 shapes incl. redefinition with another layout, main 1 node)"), fam_FA(4, 2, true), fam_FA(4, 2, true, true)};
+    L = {fam_FA(3, 2, true), fam_semladder(T ? 40 : 24), fam_FB(3, 2), fam_FC(2, shapesQ, 1, false, false, 0, "(<=2 defs of 8 shapes, main 1 node)"), fam_FC(1, shapesAll, 2, true, false, 2, "(1 def of 16 shapes, main<=2 nodes, rich args, both file layouts)"), fam_FC(2, shapesQ, 1, true, false, 0, "(<=2 defs of 8 shapes, main 1 node, rich args incl. nested calls)"), fam_FD(7, 1, 6), fam_FA(3, 2, true, true), fam_FC(3, shapesR, 1, false, false, 0, "(<=3 defs of 5 shapes incl. redefinition with another layout, main 1 node)"), fam_FC_dense(2, shapesQ, 1, "(<=2 defs of 8 shapes, main 1 node, 3 dense layouts)"), fam_FA(4, 2, true), fam_FA(4, 2, true, true)};
     if (T) { L.push_back(fam_FB(4, 2)); L.push_back(fam_FC(2, shapesAll, 2, false, false, 0, "(<=2 defs of 16 shapes, main<=2 nodes)")); L.push_back(fam_FD(11, 2, 8)); L.push_back(fam_FC(3, shapesQ, 1, false, false, 0, "(<=3 defs of 8 shapes, main 1 node)")); L.push_back(fam_FA(5, 2, false)); L.push_back(fam_FA(5, 2, false, true)); }
   } else if (P == "C03") {
     o = orc::oracle_C03;
-    L = {fam_unusual(), fam_semladder(T ? 40 : 24), fam_FB_undefined(T ? 3 : 2), fam_FA(3, 2, true), fam_FB(3, 2), fam_FC(2, shapesQ, 1, false, false, 0, "(<=2 defs of 8 shapes, main 1 node)"), fam_FC(1, shapesAll, 2, true, false, 2, "(1 def of 16 shapes, main<=2 nodes, rich args, both file layouts)"), fam_FC(2, shapesQ, 1, true, false, 0, "(<=2 defs of 8 shapes, main 1 node, rich args incl. nested calls)"), fam_FC(3, shapesR, 1, false, false, 0, "(<=3 defs of 5 shapes incl. redefinition with another layout, main 1 node)"), fam_FD(7, 1, 6)};
+    L = {fam_unusual(), fam_semladder(T ? 40 : 24), fam_FB_undefined(T ? 3 : 2), fam_FA(3, 2, true), fam_FB(3, 2), fam_FC(2, shapesQ, 1, false, false, 0, "(<=2 defs of 8 shapes, main 1 node)"), fam_FC(1, shapesAll, 2, true, false, 2, "(1 def of 16 shapes, main<=2 nodes, rich args, both file layouts)"), fam_FC(2, shapesQ, 1, true, false, 0, "(<=2 defs of 8 shapes, main 1 node, rich args incl. nested calls)"), fam_FC(3, shapesR, 1, false, false, 0, "(<=3 defs of 5 shapes incl. redefinition with another layout, main 1 node)"), fam_FD(7, 1, 6), fam_FC_dense(2, shapesQ, 1, "(<=2 defs of 8 shapes, main 1 node, 3 dense layouts)")};
     if (T) { L.push_back(fam_FA(4, 2, true)); L.push_back(fam_FB(4, 2)); L.push_back(fam_FC(2, shapesAll, 2, false, false, 0, "(<=2 defs of 16 shapes, main<=2 nodes)")); L.push_back(fam_FC(3, shapesQ, 1, false, false, 0, "(<=3 defs of 8 shapes, main 1 node)")); L.push_back(fam_FD(11, 2, 8)); }
   } else if (P == "C07") {
     o = [](orc::An &a, vf::Stats &st) { orc::oracle_C07(a, st); };
@@ -216,20 +261,20 @@ int main(int argc, char **argv) {
     if (T) { L.push_back(fam_FB(4, 2)); L.push_back(fam_FC(2, shapesAll, 2, false, false, 2, "(<=2 defs of 16 shapes, main<=2 nodes, both file layouts)")); L.push_back(fam_FC(3, shapesQ, 1, false, false, 2, "(<=3 defs of 8 shapes, main 1 node, both file layouts)")); L.push_back(fam_FA(5, 2, false)); }
   } else if (P == "C08") {
     o = orc::oracle_C08;
-    L = {fam_FD(11, 1, 8), fam_semladder(T ? 40 : 24), fam_FA(3, 2, true), fam_FB(3, 2), fam_FC(2, shapesQ, 1, false, false, 2, "(<=2 defs of 8 shapes, main 1 node, both file layouts)"), fam_FA(3, 2, true, true)};
+    L = {fam_FD(11, 1, 8), fam_semladder(T ? 40 : 24), fam_FA(3, 2, true), fam_FB(3, 2), fam_FC(2, shapesQ, 1, false, false, 2, "(<=2 defs of 8 shapes, main 1 node, both file layouts)"), fam_FA(3, 2, true, true), fam_FC_dense(2, shapesQ, 1, "(<=2 defs of 8 shapes, main 1 node, 3 dense layouts)")};
     if (T) { L.push_back(fam_FD(11, 2, 10)); L.push_back(fam_FA(4, 2, true)); L.push_back(fam_FB(4, 2)); L.push_back(fam_FC(2, shapesAll, 2, false, false, 2, "(<=2 defs of 16 shapes, main<=2 nodes, both file layouts)")); }
   } else if (P == "C16") {
     o = orc::oracle_C16;
-    L = {fam_callshapes(2), fam_loopbound(), fam_macroloops(), fam_FA(3, 2, true), fam_FC(2, shapesQ, 1, false, false, 2, "(<=2 defs of 8 shapes, main 1 node, both file layouts)"), fam_callshapes(3)};
+    L = {fam_callshapes(2), fam_loopbound(), fam_macroloops(), fam_FA(3, 2, true), fam_FC(2, shapesQ, 1, false, false, 2, "(<=2 defs of 8 shapes, main 1 node, both file layouts)"), fam_FC_dense(2, shapesQ, 1, "(<=2 defs of 8 shapes, main 1 node, 3 dense layouts)"), fam_callshapes(3)};
     if (T) { L.push_back(fam_FA(4, 2, true)); L.push_back(fam_FC(3, shapesQ, 1, false, false, 0, "(<=3 defs of 8 shapes, main 1 node)")); L.push_back(fam_FC(2, shapesAll, 2, false, false, 2, "(<=2 defs of 16 shapes, main<=2 nodes, both file layouts)")); }
   } else if (P == "C19") {
     o = orc::oracle_C19;
-    L = {fam_FC(2, shapesQ, 1, false, false, 0, "(<=2 defs of 8 shapes, main 1 node)"), fam_semladder(T ? 40 : 24), fam_FC(1, shapesAll, 2, true, false, 0, "(1 def of 16 shapes, main<=2 nodes, rich args)"), fam_callshapes(2), fam_unusual(), fam_FD(3, 0, 9), fam_FA(3, 2, true)};
+    L = {fam_FC(2, shapesQ, 1, false, false, 0, "(<=2 defs of 8 shapes, main 1 node)"), fam_semladder(T ? 40 : 24), fam_FC(1, shapesAll, 2, true, false, 0, "(1 def of 16 shapes, main<=2 nodes, rich args)"), fam_callshapes(2), fam_unusual(), fam_FD(3, 0, 9), fam_FA(3, 2, true), fam_FC_dense(2, shapesQ, 1, "(<=2 defs of 8 shapes, main 1 node, 3 dense layouts)")};
     if (T) { L.push_back(fam_FC(2, shapesAll, 2, false, false, 0, "(<=2 defs of 16 shapes, main<=2 nodes)")); L.push_back(fam_FC(3, shapesQ, 1, false, false, 0, "(<=3 defs of 8 shapes, main 1 node)")); L.push_back(fam_callshapes(3)); L.push_back(fam_FD(11, 1, 8)); }
   } else if (P == "C20") {
     o = orc::oracle_C20;
-    L = {fam_literals(), fam_bigvalues(2)};
-    if (T) { L.push_back(fam_bigvalues(3)); L.push_back(fam_FA(3, 2, true)); }
+    L = {fam_literals(), fam_bigvalues(2), fam_bigcalls(2), fam_FA(3, 2, true), fam_bigvalues(3)};
+    if (T) { L.push_back(fam_bigcalls(3)); }
   } else { fprintf(stderr, "ERROR: unknown property %s\n", P.c_str()); return 2; }
   return drv::run<Case>(args, L, [&](const Case &c, vf::Stats &st) { orc::An a(c.files, c.main); o(a, st); });
 }
